@@ -94,14 +94,10 @@ func (d *Data) sortByBlockCoord(pts []dvid.Point3d) blockPtsSlice {
 	blockPts := make(blockPtsSlice, 0, indexStartSize)
 	blockSize := d.BlockSize().(dvid.Point3d)
 	for origPos, pt := range pts {
-		// Autogenerated.
-		x := pt[0] / blockSize[0]
-		y := pt[1] / blockSize[1]
-		z := pt[2] / blockSize[2]
-		bx := pt[0] % blockSize[0]
-		by := pt[1] % blockSize[1]
-		bz := pt[2] % blockSize[2]
-		bcoord := dvid.ChunkPoint3d{x, y, z}.ToIZYXString()
+		// Block coordinate and offset within the block, also for negative coordinates.
+		bpt := pt.Point3dInChunk(blockSize)
+		bx, by, bz := bpt[0], bpt[1], bpt[2]
+		bcoord := pt.Chunk(blockSize).(dvid.ChunkPoint3d).ToIZYXString()
 		i, found := blockIndex[bcoord]
 		if found {
 			blockPts[i].pts = append(blockPts[i].pts, dvid.Point3d{bx, by, bz})
@@ -128,14 +124,9 @@ func (d *Data) partitionPoints(pts []dvid.Point3d) map[dvid.IZYXString]ptsIndex 
 	blockSize := d.BlockSize().(dvid.Point3d)
 	blockPts := make(map[dvid.IZYXString]ptsIndex)
 	for i, pt := range pts {
-		x := pt[0] / blockSize[0]
-		y := pt[1] / blockSize[1]
-		z := pt[2] / blockSize[2]
-		bx := pt[0] % blockSize[0]
-		by := pt[1] % blockSize[1]
-		bz := pt[2] % blockSize[2]
-		bpt := dvid.Point3d{bx, by, bz}
-		bcoord := dvid.ChunkPoint3d{x, y, z}.ToIZYXString()
+		// Block coordinate and offset within the block, also for negative coordinates.
+		bpt := pt.Point3dInChunk(blockSize)
+		bcoord := pt.Chunk(blockSize).(dvid.ChunkPoint3d).ToIZYXString()
 		ptsi, found := blockPts[bcoord]
 		if found {
 			ptsi.pts = append(ptsi.pts, bpt)
